@@ -39,7 +39,11 @@ Inductive case :=
 (** [shuffle] of [0..n) driven by Rng::from_seed(seed), for each seed *)
 | CShufR (n : N) (obs : list (Z * list Z))
 (** the same, where the set of seeds is meant to reach every order of [0..n) *)
-| CShufAll (n : N) (obs : list (Z * list Z)).
+| CShufAll (n : N) (obs : list (Z * list Z))
+(** a history of different operations (draws of several types and forms, f64 draws, raw words, long
+    silent runs, shuffles, copies) on ONE generator LinearCongruentialGenerator64<a, c>::from_seed(seed);
+    one observation per operation, ending at the first panic ([None]) *)
+| CMix (a c seed : Z) (ops : list mop) (obs : list (option (list Z))).
 
 Definition ozeqb := oeqb Z.eqb.
 Definition lzeqb := leqb Z.eqb.
@@ -65,6 +69,7 @@ Definition model_check (c : case) : bool :=
   | CShufS rs v r => oeqb lzeqb (shuffle_script rs v) r
   | CShufR n obs | CShufAll n obs =>
       forallb (fun p => oeqb lzeqb (shuffle_rng (fst p) (zseq n)) (Some (snd p))) obs
+  | CMix a c seed ops obs => leqb (oeqb lzeqb) (mix_run a c ops (from_seed seed)) obs
   end.
 
 (** * the property, decided on the observation *)
@@ -115,6 +120,44 @@ Fixpoint perms {X} (l : list X) : list (list X) :=
   | a :: t => flat_map (ins_all a) (perms t)
   end.
 
+(** one operation of a history: what the property says about its observation *)
+Definition spec_u64 (r : Z) : bool := (0 <=? r) && (r <? 2 ^ 64).
+Definition spec_mop (o : mop) (r : option (list Z)) : bool :=
+  match o, r with
+  | MDraw sg w f, Some [x] => in_form sg w f x
+  | MDraw sg w f, None => negb (form_nonempty sg w f)       (* only an empty range may panic *)
+  | MFloat s e, Some [x] =>
+      let fs := sf_of_bits s in let fe := sf_of_bits e in
+      SFltb fs fe && SFleb fs (sf_of_bits x) && SFltb (sf_of_bits x) fe
+  | MFloat s e, None => negb (SFltb (sf_of_bits s) (sf_of_bits e))
+  | MRaw, Some [x] | MSkip _, Some [x] | MCopy, Some [x] => spec_u64 x
+  | MShuf n, Some l => is_perm l (zseq n)
+  | _, _ => false
+  end.
+(** one observation per operation; a panic ends the history *)
+Fixpoint spec_mix (ops : list mop) (obs : list (option (list Z))) : bool :=
+  match ops, obs with
+  | [], [] => true
+  | o :: _, [None] => spec_mop o None
+  | o :: ops', Some l :: obs' => spec_mop o (Some l) && spec_mix ops' obs'
+  | _, _ => false
+  end.
+(** two consecutive shuffles of equally long slices (>= 10 elements: 10! > 3.6e6 orders) by one
+    generator give different orders: the second shuffle continues the stream, it does not replay it.
+    Asked of the concrete generator [Rng] only ([is_rng]): other constants may be degenerate on purpose
+    (A = 0: a constant stream; A = C = 2^64-1: period 2). *)
+Definition is_rng (a c : Z) : bool := (a =? lcg_A) && (c =? lcg_C).
+Fixpoint shuffles_differ (ops : list mop) (obs : list (option (list Z))) : bool :=
+  match ops, obs with
+  | o1 :: ops', r1 :: obs' =>
+      match o1, r1, ops', obs' with
+      | MShuf n, Some l1, MShuf m :: _, Some l2 :: _ =>
+          if (10 <=? n)%N && (n =? m)%N then negb (lzeqb l1 l2) else true
+      | _, _, _, _ => true
+      end && shuffles_differ ops' obs'
+  | _, _ => true
+  end.
+
 Definition spec_check (c : case) : bool :=
   match c with
   | CInt sg w f obs => forallb (fun p => spec_int sg w f (snd p)) obs
@@ -149,6 +192,7 @@ Definition spec_check (c : case) : bool :=
   | CShufAll n obs =>
       forallb (fun p => is_perm (snd p) (zseq n)) obs
       && forallb (fun p => existsb (fun o => lzeqb (snd o) p) obs) (perms (zseq n))
+  | CMix a c seed ops obs => spec_mix ops obs && (if is_rng a c then shuffles_differ ops obs else true)
   end.
 
 (** what the model computes on the input of a case (for replay files) *)
@@ -165,6 +209,7 @@ Definition explain (c : case) : list (option Z) * option (list Z) * list (option
            | Some (st, _) => opt_snd (raws rng_next (length a) st) | None => None end, [])
   | CShufS rs v r => ([], shuffle_script rs v, [])
   | CShufR n obs | CShufAll n obs => ([], None, map (fun p => shuffle_rng (fst p) (zseq n)) obs)
+  | CMix a c seed ops obs => ([], None, mix_run a c ops (from_seed seed))
   end.
 
 (** * scope of the theorem [model_check c = true -> spec_check c = true] (ProofsCorr.v)
@@ -180,6 +225,13 @@ Definition form_ok (sg : bool) (w : Z) (f : form) : bool :=
   | FRange s e | FIncl s e => in_ty sg w s && in_ty sg w e
   | FTo e | FToIncl e => in_ty sg w e
   | FFull => true
+  end.
+(** the parameters of one operation of a history are valid *)
+Definition mop_ok (o : mop) : bool :=
+  match o with
+  | MDraw sg w f => width_ok w && form_ok sg w f
+  | MShuf n => (Z.of_N n <=? 2 ^ 64)
+  | _ => true
   end.
 Definition in_scope (c : case) : bool :=
   match c with
@@ -210,4 +262,9 @@ Definition in_scope (c : case) : bool :=
   (** the all-orders coverage kept as a hypothesis: it depends on the list of seeds tried (for the
       seed lists of Spec.seeds_for it is c14_fairness_partial); that every result is a permutation is proved *)
   | CShufAll n obs => forallb (fun p => existsb (fun o => lzeqb (snd o) p) obs) (perms (zseq n))
+  (** validity of every operation (nothing is asked of a, c, seed); that consecutive long shuffles of [Rng] differ is
+      kept as a hypothesis (a statistical property of the concrete generator, like [aperiodic]); range
+      membership, panics only on empty ranges, u64 raws, permutation results, one observation per
+      operation are proved *)
+  | CMix a c _ ops obs => forallb mop_ok ops && (if is_rng a c then shuffles_differ ops obs else true)
   end.
